@@ -58,6 +58,18 @@ CHECKS = {
              "from wcs.py+api.py each run (every edit transitively assigns _approx_inverse=None; queries assign nothing but the cache). "
              "Twin differential on the implementation incl. all [query; edit; query] pairs.",
         ref="5 C08", technique="Coq proof (invariant over histories) with premises computed on a source-derived write table + twin differential"),
+    "C03": dict(
+        text="Theorems over a hand model (IEEE binary64 comparisons via Coq primitive floats) of __call__'s defaults and box evaluation: "
+             "mask_exact, mask_off_noop, no_box_noop, batch_pointwise, edge_inclusive for ALL doubles lo<=hi (closed interval), "
+             "nan_not_outside; setter/getter order and rejection are proved on regenerated code in C07. Tied by AST pins and a bit-exact "
+             "(float.hex) correspondence over exhaustive per-axis class products {inside, =lo, =hi, +-1 ulp, far, NaN, inf}.",
+        ref="5 C03", technique="Coq proof over hand model with primitive floats + AST pins + bit-exact vm_compute correspondence"),
+    "C04": dict(
+        text="Theorems over a hand model of invert's routing, the solver's blanking tail and in_image: in_image_spec (correct on both "
+             "paths), iterative_masks, masking_off_ignores_box; the full clause invert_masks_both_paths is stated, proved for a masking "
+             "analytic path and REFUTED for the code as it stands (known finding). Tied by AST pins and bit-exact correspondence of the "
+             "masking / in_image decisions computed in Coq.",
+        ref="5 C04", technique="Coq proof over hand model (primitive floats) + refutation witness + AST pins + correspondence"),
 }
 
 NOT_YET = "check not built yet in this session (work in progress; see DESIGN.md section 10 build order)"
